@@ -45,7 +45,7 @@ P = {
         "name": "schema", "pkg": "./internal/rules/mechanisms", "test": "TestVerifC20Schema",
         "overlay": {"internal/rules/mechanisms/zz_verif_c20_schema_test.go": "c20/c20_schema_test.go"},
         "eval_module": "Run.Eval_C20", "check_term": "check_schema fixed_F1a fixed_F1b",
-        "n_quick": 0, "n_thorough": 0, "findings": {1: "C20-F1e", 6: "C20-F6"}, "env": {"VERIF_C20_PROBES": PROBES},
+        "n_quick": 0, "n_thorough": 0, "findings": {1: "C20-F1f", 6: "C20-F6"}, "env": {"VERIF_C20_PROBES": PROBES},
         "escalate": False,
     }],
     "generators": [gen_schema_tables],
@@ -103,11 +103,11 @@ P = {
                   "pre-image; mapstructure decoding into the Configuration struct is not modelled (the observable is the tree handed "
                   "to the decoder); the translation of the JSON schema and of the Go config structs into the tables "
                   "(harness/tools/schema, go/ast + python) is trusted and cross-checked by the dynamic probes.  Open findings: "
-                  "C20-F1e (remote authorizer `expressions: []`, loader only; fixes/C20-F1e.diff), C20-F1f (names of non-mechanism sections: shared "
+                  "C20-F1f (names of non-mechanism sections: shared "
                   "ServiceConfig wider than the schema per service, `if` on mechanism definitions, `version`; no repair proposed), "
                   "C20-F5 (the schema validates the file alone, so a split moving a schema-required leaf is rejected), "
                   "C20-F6 (schema stricter than loader: duration syntax, container-level required), no small repair; "
-                  "F1a/b/c/d fixed by 80621e4 / 6c5864d / c343928 / cc49e3a, "
+                  "F1a/b/c/d/e fixed by 80621e4 / 6c5864d / c343928 / cc49e3a / 86b640c, "
                   "C20-F4 (nested structure inside a list element stays a flat dotted key; fixes/C20-F4.diff not applicable because it "
                   "edits a repo unit test that pins the flat key).  Fixed: C20-F3 (0f39207), general theorem proved for the repaired "
                   "code; the pinned old behaviour is C20_F3_pinned_refuted.",
